@@ -94,11 +94,9 @@ def requires(cfg, layout):
 
 def make_model(chi_mod, cfg):
     m = getattr(chi_mod, cfg['cls'])(n_dim=1, **cfg['kw'])
-    m._n_dim = S(d)
-    m._n_hierarchical_dim = S(d)
-    m._n_parameters = 2 * S(d)
-    m._n_ids = S(N)
-    return m
+    from contracts.families import generalise
+    return generalise(m, {'_n_dim': S(d), '_n_hierarchical_dim': S(d), '_n_parameters': 2 * S(d), '_n_ids': S(N)},
+                      [('n_dim', S(d)), ('n_parameters', 2 * S(d)), ('n_hierarchical_dim', S(d))])
 
 
 def params(layout):
